@@ -124,7 +124,7 @@ invariant
     merged(out@, lhs@, rhs@, i as int, j as int),
 decreases
     rhs@.len() - j,
-@before `out.push(a_i);`
+@before #1 `out.push(a_i);`
     proof { lemma_merge_push(out@, lhs@, rhs@, i as int, j as int, a_i, 1, 0); }
 @before `out.push(b_j);`
     proof { lemma_merge_push(out@, lhs@, rhs@, i as int, j as int, b_j, 0, 1); }
